@@ -17,6 +17,7 @@ import (
 	"verif/internal/ctfex"
 	"verif/internal/harness"
 	"verif/internal/keys"
+	"verif/internal/pki"
 	"verif/internal/reflog"
 	"verif/internal/rfc6962"
 )
@@ -74,17 +75,58 @@ func checkHTTP(t *testing.T, c Case) (v harness.Verdict) {
 		nReject["http"].Add(1)
 	}
 
-	f, err := os.CreateTemp("", "c02-roots-*.pem")
-	if err != nil {
-		t.Fatalf("temp file: %v", err)
+	// roots files: real files that stay in place (same path, size, mtime) for the whole case
+	var files []string
+	defer func() {
+		for _, f := range files {
+			os.Remove(f)
+		}
+	}()
+	writeRoots := func(certs []*pki.Cert) string {
+		f, err := os.CreateTemp("", "c02-roots-*.pem")
+		if err != nil {
+			t.Fatalf("temp file: %v", err)
+		}
+		f.Write(pemBundle(certs))
+		f.Close()
+		files = append(files, f.Name())
+		return f.Name()
 	}
-	defer os.Remove(f.Name())
-	f.Write(pemBundle(w.trusted))
-	f.Close()
+	var rootFiles []string
+	if k := mod(c.RootSplit, len(w.trusted)); c.RootSplit > 0 && k > 0 {
+		rootFiles = []string{writeRoots(w.trusted[:k]), writeRoots(w.trusted[k:])}
+		v.Class("roots:two-files")
+	} else {
+		rootFiles = []string{writeRoots(w.trusted)}
+	}
+	// a neighbouring log in the same process: shares the judged log's first roots file and additionally
+	// trusts everything the judged log does not
+	neighbour := func() {
+		var others []*pki.Cert
+		for _, cert := range w.all {
+			if m := w.metas[cert]; w.inPool(cert.DER) == nil && cert.IsCA && m != nil && m.poison == "" {
+				others = append(others, cert)
+			}
+		}
+		if len(others) == 0 {
+			return
+		}
+		list := []string{rootFiles[0], writeRoots(others)}
+		if !c.NeighbourFirst {
+			list[0], list[1] = list[1], list[0]
+		}
+		if _, err := ctfex.New(ctfex.Opts{LogKey: keys.Pick("p256", 1), Backend: reflog.New(7000, 1), Prefix: "neighbour", LogID: 7000, Cfg: func(cfg *configpb.LogConfig) { cfg.RootsPemFile = list }}); err != nil {
+			t.Fatalf("neighbour instance: %v", err)
+		}
+	}
+	if c.Neighbour == 1 {
+		neighbour()
+		v.Class("neighbour:set-up-before")
+	}
 	be := reflog.New(6962, 1)
 	clock := ctfex.NewClock(time.Unix(1800000000, 0))
 	inst, err := ctfex.New(ctfex.Opts{LogKey: keys.Pick("p256", 0), Backend: be, Clock: clock, Cfg: func(cfg *configpb.LogConfig) {
-		cfg.RootsPemFile = []string{f.Name()}
+		cfg.RootsPemFile = rootFiles
 		cfg.RejectExpired = c.Opt.RejectExpired
 		cfg.RejectUnexpired = c.Opt.RejectUnexpired
 		if o.start != nil {
@@ -99,6 +141,13 @@ func checkHTTP(t *testing.T, c Case) (v harness.Verdict) {
 	}})
 	if err != nil {
 		t.Fatalf("instance: %v (options %s)", err, optString(w, o))
+	}
+	if c.Neighbour == 2 {
+		neighbour()
+		v.Class("neighbour:set-up-after")
+	}
+	if c.Neighbour > 0 && (chainWhy == "untrusted" || chainWhy == "root-signature") {
+		v.Class("neighbour:trusts-what-this-chain-needs")
 	}
 
 	// earlier submissions on the same instance: each is judged by the same reference, and none of them
